@@ -206,6 +206,15 @@ def build(case, make_env=True, stream_override=None):
         ci = ci % b.n
         mid = specs[ci]["p0"] * price_mult
         stream.append((t, "Q", (ci, mid * (1 - sp / 2), mid * (1 + sp / 2))))
+    for (gi, off_us, ci, price_mult, sp) in case.get("chain_extras", []):
+        # an extra quote for every unexpired listed contract of chain ci, off_us after grid point gi
+        gi = gi % len(b.grid)
+        t = b.grid[gi] + off_us
+        now = dt(t)
+        for ui, fut in enumerate(b.contracts[ci].contracts):
+            if fut.expiry > now:
+                mid = specs[ci]["p0"] * price_mult * (1 + 0.005 * ui)
+                stream.append((t, "QU", (ci, ui, mid * (1 - sp / 2), mid * (1 + sp / 2))))
     for gi, r in case.get("rates", []):
         stream.append((b.grid[gi % len(b.grid)], "RATE", r))
     for i, (gi, off_us, val) in enumerate(case.get("pings", [])):
@@ -533,7 +542,8 @@ def chain_episode_cases(draw, tier="quick", classes=("ES", "NK", "ZN", "VX"), wi
     r = draw(st.integers(0, min(2, len(chain.contracts) - 2 - month)))
     ltd = chain.contracts[r].last_trading_date
     back = draw(st.integers(1, 6))
-    hour_us = draw(st.sampled_from([0, 0, 9 * 3600 * US + 1800 * US, 16 * 3600 * US]))
+    # 23:59:00 grids let quotes inside the latency window cross midnight, i.e. cross a last-trading instant
+    hour_us = draw(st.sampled_from([0, 0, 9 * 3600 * US + 1800 * US, 16 * 3600 * US, 86340 * US, 86340 * US]))
     first = us_of(datetime(ltd.year, ltd.month, ltd.day)) - back * 86400 * US + hour_us
     npts = draw(st.integers(4, max_points))
     gaps = [first] + [draw(st.integers(1, maxgap)) * 86400 * US for _ in range(npts - 1)]
@@ -546,7 +556,15 @@ def chain_episode_cases(draw, tier="quick", classes=("ES", "NK", "ZN", "VX"), wi
     bars = [[[draw(st.floats(0.97, 1.03)), draw(sp)] for _ in range(n)] for _ in range(npts)]
     ws = draw(st.lists(st.sampled_from([0.5, -0.5, 1.0, -1.0, 0.25, 0.0, 1.5]), min_size=1, max_size=4))
     actions = [[ws[k % len(ws)]] + [draw(st.sampled_from([0.0, 0.2, -0.2]))] * (n - 1) for k in range(npts - 1)]
-    return {"gaps": gaps, "contracts": specs, "bars": bars, "extras": [], "rates": [], "pings": [],
-            "latency_us": draw(st.sampled_from([0, 0, 60 * US])), "delay": draw(st.sampled_from([0, 0, 1])), "actions": actions,
+    latency_us = draw(st.sampled_from([0, 0, 60 * US, 120 * US, 120 * US]))
+    chain_extras = []
+    if latency_us > 0:
+        for gi in range(npts - 1):
+            if draw(st.sampled_from([True, True, False])):
+                off = draw(st.sampled_from([90 * US, 30 * US, latency_us, 1]))
+                if off <= latency_us or draw(st.booleans()):
+                    chain_extras.append([gi, off, 0, draw(st.floats(0.97, 1.03)), draw(sp)])
+    return {"gaps": gaps, "contracts": specs, "bars": bars, "extras": [], "rates": [], "pings": [], "chain_extras": chain_extras,
+            "latency_us": latency_us, "delay": draw(st.sampled_from([0, 0, 1])), "actions": actions,
             "reward": ["simple"], "fees": [0.0, draw(st.sampled_from([0.0, 0.0005]))], "markup": 0.0, "deposit": 1e6,
             "space": ["box", -3.0, 3.0], "threshold": draw(st.sampled_from([0.0, 0.0, 0.05, 0.5]))}
